@@ -72,17 +72,20 @@ def explore(run_with_chooser, budget, preemption_bound):
 # ---- one stp case -------------------------------------------------------------------------------
 
 def stp_case(cfg, chooser):
+    common.gc_point()
     r = sched.StpRun(cfg['b'], cfg['items'], cfg['ending'], cfg['stop'], chooser, excf).run()
     return {'proto': 'stp', 'cfg': cfg, 'run': r}
 
 
 def lpm_case(cfg, chooser):
+    common.gc_point()
     fn = make_fn(cfg['fm'], cfg['fr'], cfg['fcls'])
     r = sched.LpmRun(cfg['w'], cfg['b'], cfg['items'], cfg['ending'], fn, cfg['stop'], chooser, excf).run()
     return {'proto': 'lpm', 'cfg': cfg, 'run': r}
 
 
 def api_case(cfg, chooser):
+    common.gc_point()
     fn = make_fn(cfg['fm'], cfg['fr'], cfg['fcls'])
     r = sched.ApiLpmRun(cfg['via'], cfg['w'], cfg['b'], cfg['items'], fn, cfg['stop'], chooser, cfg['with_items']).run()
     return {'proto': 'api', 'cfg': cfg, 'run': r}
